@@ -9,7 +9,7 @@ from ..model import AnalysisError, Cls, Func, Program, walk_own
 from ..orderings import NotAFormula, eval_order, weak_orderings
 from ..report import Report
 from ..resolve import const_value, dotted
-from ..util import calls_in, returns_of, src
+from ..util import assigned_value, calls_in, returns_of, src
 from .c01 import feeder_analysis, r1_raised_before_start
 from .poolfam import PoolFacts, queue_call
 
@@ -60,8 +60,8 @@ class _WakeUp(Client):
     def event(self, kind, node, state, ctx: Ctx):
         pf = self.pf
         if kind == "store" and isinstance(node, ast.Attribute) and pf.pool_field(node, ctx.func, ctx.scope.cls) == pf.flag:
-            st = getattr(node, "_parent", None)
-            v = const_value(st.value, None) if isinstance(st, ast.Assign) else None
+            av = assigned_value(node)
+            v = const_value(av, None) if av is not None else None
             if v is not None and not v:
                 return (True,)
         if kind == "call" and isinstance(node, ast.Call):
